@@ -195,6 +195,32 @@ type Pair struct {
 	L []PairIn1
 }
 
+// Omit: omitempty on fields that cannot be nil (int, string, bool, float, zero-length array) and on some that can;
+// OmitOuter / containers of Omit inline its body, so what THEY emit must not depend on how Omit itself was compiled before
+type Omit struct {
+	N int            `json:"n,omitempty"`
+	S string         `json:"s,omitempty"`
+	B bool           `json:"b,omitempty"`
+	F float64        `json:"f,omitempty"`
+	A [0]int         `json:"a,omitempty"`
+	P *int           `json:"p,omitempty"`
+	L []int          `json:"l,omitempty"`
+	M map[string]int `json:"m,omitempty"`
+	K int            `json:"k"`
+}
+type OmitOuter struct {
+	In  Omit   `json:"in"`
+	X   int    `json:"x"`
+	Ins []Omit `json:"ins,omitempty"`
+	T   string `json:"t,omitempty"`
+}
+
+// OmitOuter2: Omit stays within the inline depth for the wrappers T, *T, []T, struct{X T}, [2]T
+type OmitOuter2 struct {
+	In Omit `json:"in"`
+	X  int  `json:"x"`
+}
+
 // Entry of the catalogue.
 type Entry struct {
 	Name   string
@@ -225,6 +251,9 @@ var Catalogue = []Entry{
 	{"TP", reflect.TypeOf(TP{}), "pv"},
 	{"TQ", reflect.TypeOf(TQ{}), "pv"},
 	{"Pair", reflect.TypeOf(Pair{}), ""},
+	{"Omit", reflect.TypeOf(Omit{}), ""},
+	{"OmitOuter", reflect.TypeOf(OmitOuter{}), ""},
+	{"OmitOuter2", reflect.TypeOf(OmitOuter2{}), ""},
 }
 
 const GenBase = 1000 // type index >= GenBase: generated reflect.StructOf type number (index - GenBase)
@@ -435,6 +464,51 @@ func Fill(v reflect.Value, r *rng.R, depth int) {
 			v.Set(reflect.ValueOf(x))
 		}
 	}
+}
+
+// ZeroFill: every scalar is its zero value, but containers are made non-empty (one element / one entry / allocated pointer)
+// down to the given depth, so that the zero structs inside them are actually encoded.
+func ZeroFill(v reflect.Value, depth int) {
+	t := v.Type()
+	switch t.Kind() {
+	case reflect.Ptr:
+		if depth > 0 {
+			p := reflect.New(t.Elem())
+			ZeroFill(p.Elem(), depth-1)
+			v.Set(p)
+		}
+	case reflect.Slice:
+		if depth > 0 && t.Elem().Kind() != reflect.Uint8 {
+			s := reflect.MakeSlice(t, 1, 1)
+			ZeroFill(s.Index(0), depth-1)
+			v.Set(s)
+		}
+	case reflect.Array:
+		for i := 0; i < t.Len(); i++ {
+			ZeroFill(v.Index(i), depth-1)
+		}
+	case reflect.Map:
+		if depth > 0 && t.Key().Kind() == reflect.String {
+			m := reflect.MakeMap(t)
+			e := reflect.New(t.Elem()).Elem()
+			ZeroFill(e, depth-1)
+			m.SetMapIndex(reflect.ValueOf("k").Convert(t.Key()), e)
+			v.Set(m)
+		}
+	case reflect.Struct:
+		for i := 0; i < t.NumField(); i++ {
+			if f := v.Field(i); f.CanSet() {
+				ZeroFill(f, depth-1)
+			}
+		}
+	}
+}
+
+// ZeroValue returns a pointer to the "zero but non-empty" value of type t.
+func ZeroValue(t reflect.Type) reflect.Value {
+	p := reflect.New(t)
+	ZeroFill(p.Elem(), 4)
+	return p
 }
 
 // Value returns a pointer to a fresh pseudo-random value of type t.
